@@ -251,6 +251,29 @@ def build_rw(spec):
                     return Fail("density:propagation")
                 if abs(float(np.asarray(b).sum()) - 1.0) > 1e-9:
                     return Fail("density:sum")
+        # the same object is rewired keeping node and hyperedge counts, then asked again (stale caches)
+        absent = [c for c, b in zip(cands, bits) if not b]
+        if present and absent:
+            present2 = present[1:] + [absent[0]]
+            if len(components(nodes, present2)) == 1:
+                h.remove_edge(present[0])
+                h.add_edge(absent[0])
+                w2 = [[0.0] * N for _ in range(N)]
+                for e in present2:
+                    for i in e:
+                        for j in e:
+                            if i != j:
+                                w2[i][j] += len(e) - 1
+                d2 = [sum(w2[i]) for i in range(N)]
+                pi2 = np.asarray(randwalk.RW_stationary_state(h)).reshape(-1)
+                if any(abs(float(a) - b / sum(d2)) > 1e-6 for a, b in zip(pi2, d2)):
+                    return Fail("stationary:after-rewiring-the-same-object")
+                dens = randwalk.random_walk_density(h, np.array([1.0] + [0.0] * (N - 1)), 1)
+                want1 = [w2[0][j] / sum(w2[0]) for j in range(N)]
+                if any(abs(float(a) - b) > 1e-9 for a, b in zip(np.asarray(dens[1]).reshape(-1), want1)):
+                    return Fail("density:after-rewiring-the-same-object")
+                h.remove_edge(absent[0])
+                h.add_edge(present[0])
         # a sampled walk only steps between nodes sharing a hyperedge
         start = spec.get("start", 0)
         ctx = standins.bound(randwalk, np=NpChoice(S))
